@@ -99,7 +99,8 @@ package database
 //@   at select Feed assert !blocking && passes == offers + 1
 //@   at select Feed ghost offers = offers + 1
 //@   at return assert passes == offers
-//@   loop 0 invariant rangeindex >= -1 && rangeindex <= 1<<48 && passes == offers && rl
+//@   loop 0 invariant rangeindex >= -1 && rangeindex <= 1<<48 && passes == offers
+//@   loop 0 invariant rl
 
 // Put / PutNew: storage (or the write cache) is written only with all permissions or after
 // the existing record's metadata passed the permission check (getMeta) or does not exist
